@@ -11,10 +11,22 @@
    zlib / LZW stream for payload" is by definition "the third-party decoder returns payload for enc", so those
    theorems speak about lopdf's own code around the decoders: parameter routing, predictor, ASCII85, chaining.
 
+   Section (7) removes the oracle from the DEFINITION of a zlib / LZW stream: Spec/LzwSpec.v is an executable LZW
+   codec (ISO 32000-1 7.4.4.2, EarlyChange 0/1, clear-table when full or sooner) proved lossless for every byte
+   string (C09_lzw_decode_encode), Spec/Inflate.v an executable RFC 1950/1951 decoder (stored, fixed and dynamic
+   Huffman blocks, Adler-32) proved to invert the stored-block encoder (C09_inflate_stored).  "enc is a zlib / LZW
+   stream for payload" then means "the standard's decoder returns payload", and what is still ASSUMED of the crates is
+   written as the three predicates of Spec/StreamCodecSpec.v:
+     implements_inflate inflate, implements_lzw lzw  (the crates' decoders agree with the Gallina decoders wherever
+     those succeed),  valid_zlib_output deflate c    (flate2's compressor writes a zlib stream for c);
+   all three are differential-tested against the extracted Gallina codecs on every run (cases lzwrt/lzwdec/zrt/zdec).
+
    [dict_wf d] = the keys of d are pairwise distinct; the Rust type IndexMap guarantees it. *)
 From LV Require Import Base.Bytes Model.Obj Gen.Filters Model.A85 Model.Png Model.StreamFilt Model.FiltersPinned
-  Spec.A85Spec Spec.PngSpec Spec.StreamSpec
-  Proofs.FilterProofsPng Proofs.FilterProofsA85 Proofs.FilterProofsDict Proofs.FilterProofsStream Proofs.FilterProofsDoc.
+  Spec.A85Spec Spec.PngSpec Spec.StreamSpec Spec.StreamCodecSpec
+  Proofs.FilterProofsPng Proofs.FilterProofsA85 Proofs.FilterProofsDict Proofs.FilterProofsStream Proofs.FilterProofsDoc
+  Proofs.FilterProofsCodec.
+From LV Require Spec.LzwSpec Spec.Inflate Spec.ZlibStoredSpec Proofs.LzwProofs Proofs.InflateProofs.
 
 (* ================= (1) PNG predictors ================= *)
 
@@ -275,6 +287,110 @@ Theorem C09_witnesses_repaired :
   A85.decode nul_witness_text = Ok nul_witness_data.
 Proof. split; [exact avg_witness_repaired | exact a85_nul_repaired]. Qed.
 
+(* ================= (7) the codecs themselves: LZW and zlib written from the standards ================= *)
+
+(* bit packing: codes that fit the width of their position (9..12 bits, a function of the number of codes since the
+   last clear-table marker and of EarlyChange) are read back unchanged up to the EOD marker, whatever follows *)
+Theorem C09_lzw_unpack_pack :
+  forall ec cs k rest, LzwSpec.fits ec k cs -> In LzwSpec.EOD cs ->
+    LzwSpec.unpack ec k (LzwSpec.width ec k) 0 (LzwSpec.pack ec k cs ++ rest) = LzwSpec.cut cs.
+Proof. exact LzwProofs.unpack_pack. Qed.
+
+(* every byte string, both EarlyChange values: the LZW decoder inverts the encoder (which clears its table when
+   it is full, 4096 codes) *)
+Theorem C09_lzw_decode_encode :
+  forall ec data, LzwSpec.lzw_decode ec (LzwSpec.lzw_encode ec data) = Some data.
+Proof. exact LzwProofs.lzw_decode_encode. Qed.
+
+(* "it may do so sooner": the same for an encoder that clears at any table size up to 4096 *)
+Theorem C09_lzw_decode_encode_any_clearing_point :
+  forall limit ec data, (limit <= LzwSpec.TABLE_MAX)%N ->
+    LzwSpec.lzw_decode ec (LzwSpec.lzw_encode_lim limit ec data) = Some data.
+Proof. exact LzwProofs.lzw_decode_encode_lim. Qed.
+
+(* every byte string, every block size 1..65535: the RFC 1950/1951 decoder inverts the stored-block encoder
+   (header, LEN/NLEN, several blocks, Adler-32 modulo 65521) *)
+Theorem C09_inflate_stored :
+  forall data, Inflate.inflate (Inflate.deflate_stored data) = Some data.
+Proof. exact InflateProofs.inflate_stored. Qed.
+
+Theorem C09_inflate_stored_any_block_size :
+  forall k data, Inflate.inflate (ZlibStoredSpec.zlib_stored k data) = Some data.
+Proof. exact InflateProofs.inflate_zlib_stored. Qed.
+
+(* one stage / every chain, the Flate and LZW stages being streams that the STANDARDS' decoders read as the payload
+   (Spec/StreamCodecSpec.v); of the third-party decoders only agreement with those decoders is assumed *)
+Theorem C09_stage_decodes_std :
+  forall inflate lzw, implements_inflate inflate -> implements_lzw lzw ->
+  forall st p data enc,
+    encodes_stage_std st data enc -> stage_parms_ok st p ->
+    decode_one inflate lzw (stage_name st) p enc = Ok data.
+Proof. exact stage_decodes_std. Qed.
+
+Theorem C09_chain_decodes_std :
+  forall inflate lzw, implements_inflate inflate -> implements_lzw lzw ->
+  forall stages d content plain fo,
+    stages <> [] ->
+    dict_get d P_Filter = Some fo -> filter_entry (map stage_name stages) fo ->
+    (forall i st, nth_error stages i = Some st -> stage_parms_ok st (spec_params (dict_get d P_DecodeParms) i)) ->
+    encodes_chain_std stages plain content ->
+    decompressed_content inflate lzw {| s_dict := d; s_content := content |} = Ok plain /\
+    get_plain_content inflate lzw {| s_dict := d; s_content := content |} = Ok plain.
+Proof. exact chain_decodes_std. Qed.
+
+(* the chains written by the reference encoders: ASCII85 text, LZW with any clearing point, stored-block zlib with
+   any block size, PNG prediction in front of either.  Here lzw_decode (lzw_encode x) = x and
+   inflate (zlib_stored x) = x are THEOREMS (above), no longer laws assumed of an oracle *)
+Theorem C09_chain_decodes_reference_encoders :
+  forall inflate lzw, implements_inflate inflate -> implements_lzw lzw ->
+  forall stages d content plain fo,
+    stages <> [] ->
+    dict_get d P_Filter = Some fo -> filter_entry (map stage_name stages) fo ->
+    (forall i st, nth_error stages i = Some st -> stage_parms_ok st (spec_params (dict_get d P_DecodeParms) i)) ->
+    encoded_chain_ref stages plain content ->
+    decompressed_content inflate lzw {| s_dict := d; s_content := content |} = Ok plain /\
+    get_plain_content inflate lzw {| s_dict := d; s_content := content |} = Ok plain.
+Proof. exact chain_decodes_ref. Qed.
+
+(* lopdf's filter code run on the Gallina codecs: nothing at all is assumed about third-party code *)
+Theorem C09_chain_decodes_gallina_codecs :
+  forall stages d content plain fo,
+    stages <> [] ->
+    dict_get d P_Filter = Some fo -> filter_entry (map stage_name stages) fo ->
+    (forall i st, nth_error stages i = Some st -> stage_parms_ok st (spec_params (dict_get d P_DecodeParms) i)) ->
+    encoded_chain_ref stages plain content ->
+    decompressed_content gallina_inflate gallina_lzw {| s_dict := d; s_content := content |} = Ok plain /\
+    get_plain_content gallina_inflate gallina_lzw {| s_dict := d; s_content := content |} = Ok plain.
+Proof. exact chain_decodes_gallina. Qed.
+
+(* non-vacuity: ASCII85 around LZW (EarlyChange 0) around Flate with Predictor 12 / Columns 2, 29 bytes written by
+   the three Gallina encoders, parameters [null << /EarlyChange 0 >> << /Predictor 12 /Columns 2 >>] *)
+Theorem C09_example_chain_gallina :
+  gx_stages <> [] /\
+  dict_get gx_dict P_Filter = Some (OArr (map OName (map stage_name gx_stages))) /\
+  (forall i st, nth_error gx_stages i = Some st -> stage_parms_ok st (spec_params (dict_get gx_dict P_DecodeParms) i)) /\
+  encoded_chain_ref gx_stages (concat ex_rows) gx_content /\
+  concat ex_rows = [x01; x02; x03; x05] /\ length gx_content = 29.
+Proof. exact gx_hyps. Qed.
+
+(* compress then decode: all that is asked of flate2's compressor is that its output is a zlib stream for the
+   content (by the RFC decoder); "a zlib stream is never empty" is now a consequence *)
+Theorem C09_compress_lossless_valid_zlib :
+  forall inflate lzw, implements_inflate inflate ->
+  forall deflate s,
+    dict_wf (s_dict s) -> valid_zlib_output deflate (s_content s) ->
+    get_plain_content inflate lzw (compress deflate s) = get_plain_content inflate lzw s.
+Proof. intros inflate lzw H. exact (compress_lossless_std inflate lzw H). Qed.
+
+(* a stored-block compressor: no assumption about the compressor is left (such a compressor never makes the content
+   shorter, so lopdf keeps the stream as it is: the statement holds, but it is the trivial branch of compress) *)
+Theorem C09_compress_lossless_stored :
+  forall inflate lzw, implements_inflate inflate ->
+  forall k s,
+    dict_wf (s_dict s) ->
+    get_plain_content inflate lzw (compress (ZlibStoredSpec.zlib_stored k) s) = get_plain_content inflate lzw s.
+Proof. intros inflate lzw H. exact (compress_lossless_stored inflate lzw H). Qed.
+
 Print Assumptions C09_paeth_eq_spec.
 Print Assumptions C09_filter_types.
 Print Assumptions C09_decode_row_encode_row.
@@ -310,3 +426,15 @@ Print Assumptions C09_a85_nul_pinned_refuted.
 Print Assumptions C09_parms_array_pinned_refuted.
 Print Assumptions C09_compress_pinned_refuted.
 Print Assumptions C09_witnesses_repaired.
+Print Assumptions C09_lzw_unpack_pack.
+Print Assumptions C09_lzw_decode_encode.
+Print Assumptions C09_lzw_decode_encode_any_clearing_point.
+Print Assumptions C09_inflate_stored.
+Print Assumptions C09_inflate_stored_any_block_size.
+Print Assumptions C09_stage_decodes_std.
+Print Assumptions C09_chain_decodes_std.
+Print Assumptions C09_chain_decodes_reference_encoders.
+Print Assumptions C09_chain_decodes_gallina_codecs.
+Print Assumptions C09_example_chain_gallina.
+Print Assumptions C09_compress_lossless_valid_zlib.
+Print Assumptions C09_compress_lossless_stored.
